@@ -339,7 +339,29 @@ func (c *Ctx) c17StableList(fn *ssa.Function, call *ssa.Call) string {
 	if held {
 		return ""
 	}
-	// in-place editors of the same field: append(load(f)[:i], …) or a store through load(f)[i]
+	// in-place editors of the same field: append(load(f)[:i], …) or a store through load(f)[i];
+	// the list may reach the editor as a parameter (withoutListener(eb.listenerNames, eb.listenerFuncs, name))
+	var isList func(v ssa.Value, depth int) bool
+	isList = func(v ssa.Value, depth int) bool {
+		if depth > 3 {
+			return false
+		}
+		if eng.SameField(eng.LoadedField(v), f) {
+			return true
+		}
+		if prm, ok := v.(*ssa.Parameter); ok {
+			vals, known := p.ActualsOf(prm)
+			if !known {
+				return false
+			}
+			for _, a := range vals {
+				if isList(a, depth+1) {
+					return true
+				}
+			}
+		}
+		return false
+	}
 	var editors []string
 	for _, g := range p.Funcs {
 		g := g
@@ -347,12 +369,12 @@ func (c *Ctx) c17StableList(fn *ssa.Function, call *ssa.Call) string {
 			switch x := in.(type) {
 			case *ssa.Call:
 				if eng.CalleeName(x.Common()) == "builtin.append" && len(x.Call.Args) > 0 {
-					if sl, ok := x.Call.Args[0].(*ssa.Slice); ok && eng.SameField(eng.LoadedField(sl.X), f) {
+					if sl, ok := x.Call.Args[0].(*ssa.Slice); ok && isList(sl.X, 0) {
 						editors = append(editors, p.InstrPos(in))
 					}
 				}
 			case *ssa.Store:
-				if ia2, ok := x.Addr.(*ssa.IndexAddr); ok && eng.SameField(eng.LoadedField(ia2.X), f) {
+				if ia2, ok := x.Addr.(*ssa.IndexAddr); ok && isList(ia2.X, 0) {
 					editors = append(editors, p.InstrPos(in))
 				}
 			}
